@@ -23,7 +23,8 @@ import (
 // Oracles: parser.Parse rejects with >= 1 error, every error located;
 // Evaluator.Run(src) with a recording Platform sees ZERO calls (no effect, no
 // yield, no Yielder() request); `evy run` prints nothing on stdout, something
-// on stderr and exits non-zero.
+// on stderr and exits non-zero — also under every flag set of runCmd and from
+// every source channel, leaving its working directory untouched (c05cli.go).
 
 type c05Line struct {
 	text       string
@@ -388,6 +389,7 @@ type c05Ctx struct {
 	bin     string
 	binDir  string
 	binRuns int
+	cliRuns int // invocations of the flag x channel family (harness/c05cli.go)
 	maxBin  int
 	cfg     Config
 	ruleBin map[string]int
@@ -480,6 +482,8 @@ func c05Check(c *c05Ctx, m c05Mutant, orig string) {
 				r.Dist("evy-run:rejected-cleanly")
 			}
 		}
+		// the same rejected program under the flag sets and source channels of `evy run` (harness/c05cli.go)
+		c05CLIFamily(c, m)
 	}
 	if len(r.Samples) < 5 && len(m.Src) < 300 && r.Distribution["rule:"+m.Rule] == 1 {
 		r.Sample(map[string]any{"rule": m.Rule, "position": m.Pos, "program": m.Src, "errors": truncKey(err.Error(), 200)})
@@ -500,7 +504,10 @@ func runC05(cfg Config, r *Result) {
 		"x applicable positions (statement boundaries at every block nesting: top level, if/else, while, for, func, on; quick: 2 random positions per rule and program, thorough: all); " +
 		"scope trees: random trees of if / else-if / else chains, loops, function and handler bodies with one declaration and a read of it at every position where it is not in scope " +
 		"(later / earlier sibling branch, else-if and while conditions, after / before the enclosing block, unrelated blocks); " +
-		"one rule-breaking edit per mutant; every mutant is non-trivial; distinct = distinct mutant text"
+		"one rule-breaking edit per mutant; every mutant is non-trivial; distinct = distinct mutant text; " +
+		"`evy run` half: the mutants that go through the binary x flag sets of runCmd (--svg-out - / fresh FILE / existing FILE, --svg-style/-width/-height, --rand-seed, " +
+		"with and without --skip-sleep / EVY_SKIP_SLEEP, --no-test-summary, --fail-fast, all together) x source channel (file, stdin `-`, stdin default, txtar member): " +
+		"no stdout byte, working directory byte-identical before/after, located error on stderr, non-zero exit"
 	bin, cleanup, err := fmBuildEvy()
 	if err != nil {
 		r.Violate(Violation{Kind: "correspondence", Key: "evy-binary-build", Detail: err.Error()})
